@@ -199,6 +199,26 @@ pub fn plan(property: &str, tier: Tier) -> Option<Plan>
             {
                 items.push(item(core_cfg("C02/plain3/L0/N5".into(), p3.clone(), &[], 5, 2, true), "plain3-L0-2trees", "N=5"));
             }
+            // reactions of every kind, including polled ones (removal), in a small kind-rich universe
+            let ns: &[u32] = if q { &[3] } else { &[3, 4] };
+            for &n in ns
+            {
+                let mut c = Config::base(&format!("C02/rich2/N{n}"));
+                c.actors = vec![Variant::Plain, Variant::Plain, Variant::Plain];
+                c.n_ents = 1;
+                c.setup = {
+                    let mut s = vec![Op::Insert(Comp::A, 0, 0)];
+                    s.extend(rich_setup(&[0, 1], &[0], true, true));
+                    s.push(Op::Register(2, Bundle::two(Trig::Removal(Comp::A), Trig::Despawn(0)), Mode::Persistent));
+                    s
+                };
+                c.fixed_top = vec![Op::Run(0)];
+                let inner = rich_alphabet(true, true, true, None);
+                c.script = Arc::new(move |i: &DynInfo| inner(i).into_iter().filter(|op| op.actor() != Some(2)).collect());
+                c.budget = n;
+                c.max_runs = 400;
+                items.push(item(c, "rich2", &format!("N={n}")));
+            }
             reports = vec!["C02"];
             rule = "lazily enumerated programs over {Run, SysEvent, DespawnSys}x3 actors + Broadcast with preset \
                 listeners; non-trivial = at least one system run; distinct = distinct canonical trace".into();
@@ -366,11 +386,21 @@ pub fn plan(property: &str, tier: Tier) -> Option<Plan>
             for &n in ns
             {
                 let mut c = Config::base(&format!("{property}/rich/N{n}"));
-                c.actors = if is3 { vec![Variant::Plain, Variant::Plain] } else { vec![Variant::Plain, Variant::Exclusive, Variant::Plain] };
+                c.actors = if is3 { vec![Variant::Plain, Variant::Plain] } else { vec![Variant::Plain, Variant::Exclusive, Variant::Plain, Variant::Plain] };
                 c.n_ents = 2;
                 c.setup = { let mut s = vec![Op::Insert(Comp::A, 0, 0), Op::Insert(Comp::A, 1, 0)]; s.extend(rich_setup(&[0, 1], &[0, 1], true, true)); s };
+                if !is3
+                {
+                    // actor 3 only listens to polled triggers and is never named by the alphabet: it runs at whatever
+                    // poll point picks its reactions up, possibly in the middle of somebody else's event
+                    c.setup.push(Op::Register(3, Bundle::three(Trig::Removal(Comp::A), Trig::Despawn(0), Trig::Despawn(1)), Mode::Persistent));
+                }
                 c.fixed_top = vec![Op::Run(0)];
-                c.script = rich_alphabet(true, is3, true, if is3 { None } else { Some(2) });
+                c.script = if is3 { rich_alphabet(true, true, true, None) } else
+                {
+                    let inner = rich_alphabet(true, true, true, Some(2));
+                    Arc::new(move |i: &DynInfo| inner(i).into_iter().filter(|op| op.actor() != Some(3)).collect())
+                };
                 c.budget = n;
                 c.max_runs = 600;
                 items.push(item(c, "rich", &format!("N={n}")));
@@ -536,8 +566,9 @@ pub fn plan(property: &str, tier: Tier) -> Option<Plan>
                         if is1
                         {
                             for a in i.ready_actors() { v.push(Op::DespawnSys(a)); }
-                            v.push(Op::Despawn(0));
                         }
+                        // tokens naming an entity that has been despawned since
+                        v.push(Op::Despawn(0));
                         v
                     });
                     c.max_top = d;
